@@ -59,7 +59,7 @@ func H_kq_dirstep() {
 	got = verifCollect(wt, got)
 	verifExpect(got, nil, "entries that existed when the watch was added are never reported as Create")
 	aWatched := ka == nFile || ka == nDir
-	op := verifChoose("op", 9)
+	op := verifChoose("op", 10)
 	var want []verifKqExp
 	switch op {
 	case 0: // create a new entry
@@ -115,6 +115,13 @@ func H_kq_dirstep() {
 		verifRaise("/d", unix.NOTE_WRITE)
 		want = append(want, verifKqExp{base + "/a", Remove}, verifKqExp{base + "/c", Create})
 		verifReach("kq-dir-remove-create-other")
+	case 9: // a new entry and then a change of another entry, in one batch: order is kept
+		verifAssume(ka == nFile)
+		verifNodeOf2("/d/c").kind = nFile
+		verifRaise("/d", unix.NOTE_WRITE)
+		verifRaise("/d/a", unix.NOTE_ATTRIB)
+		want = append(want, verifKqExp{base + "/c", Create}, verifKqExp{base + "/a", Chmod})
+		verifReach("kq-dir-create-then-chmod")
 	case 6: // the directory changes but no entry is new (e.g. an unwatched entry went away)
 		verifRaise("/d", unix.NOTE_WRITE)
 		verifReach("kq-dir-touch")
